@@ -141,7 +141,7 @@ func TestVerifKeysMeta(t *testing.T) {
 			memKeys = append(memKeys, partitionKey(n, p))
 			memc = append(memc, consumerKey("g", n, p))
 		}
-		delMem, delEtcd := map[string]bool{}, map[string]bool{}
+		delMem, delMemC, delEtcd := map[string]bool{}, map[string]bool{}, map[string]bool{}
 		if accMem[i] {
 			before := map[string]int64{}
 			for k, v := range mem.offsets {
@@ -162,7 +162,7 @@ func TestVerifKeysMeta(t *testing.T) {
 			}
 			for k, v := range beforeC {
 				if _, ok := mem.consumerOffsets[k]; !ok {
-					delMem[k] = true
+					delMemC[k] = true
 					mem.consumerOffsets[k] = v
 				}
 			}
@@ -189,7 +189,7 @@ func TestVerifKeysMeta(t *testing.T) {
 			}
 		}
 		bs, _ := json.Marshal(map[string]any{"ev": "Meta", "i": i, "segs": segs[i], "name": n, "accMem": accMem[i], "accEtcd": accEtcd[i],
-			"etcd": etcdKeys, "lease": lease, "mem": memKeys, "memc": memc, "delMem": vkSorted(delMem), "delEtcd": vkSorted(delEtcd)})
+			"etcd": etcdKeys, "lease": lease, "mem": memKeys, "memc": memc, "delMem": vkSorted(delMem), "delMemC": vkSorted(delMemC), "delEtcd": vkSorted(delEtcd)})
 		w.Write(bs)
 		w.WriteByte('\n')
 	}
